@@ -39,7 +39,7 @@ func main() {
 	}
 	var checks []map[string]any
 	var served []string
-	var na []map[string]string
+	na := []map[string]string{}
 	for _, id := range ids {
 		var s struct {
 			ID    string `json:"id"`
